@@ -22,3 +22,4 @@ def run(project, rep):
     rep.run(P.p_r7_every_match_fed, project, rep)
     rep.run(P.p_r8_single_tokenizer, project, rep)
     rep.run(P.p_r10_no_invented_end, project, rep)
+    rep.run(P.p_r11_no_element_truthiness, project, rep)
